@@ -75,9 +75,17 @@ def _run_chunk(args):
                 r = j.run(c)
             finally:
                 signal.alarm(0)
-        except Exception as e:      # the oracle itself must not crash: report as checker error
-            r = 'CHECKER-ERROR ' + ''.join(traceback.format_exception_only(type(e), e)).strip() + \
-                ' @ ' + traceback.format_tb(e.__traceback__)[-1].strip().replace('\n', ' | ')
+        except Exception as e:
+            frames = traceback.extract_tb(e.__traceback__)
+            where = ' @ ' + traceback.format_tb(e.__traceback__)[-1].strip().replace('\n', ' | ')
+            # an exception that comes out of the code under test (raised in or below /repo) is a finding of the job;
+            # one raised by the oracle code itself is a checker error
+            idx_rtc = max([k for k, f in enumerate(frames) if '/verif/rtc/' in f.filename] or [-1])
+            in_repo = any('/bycycle/' in f.filename and '/verif/' not in f.filename for f in frames[idx_rtc + 1:])
+            if in_repo and not isinstance(e, TimeoutError):
+                r = 'the library raised ' + ''.join(traceback.format_exception_only(type(e), e)).strip()[:200] + where[:200]
+            else:
+                r = 'CHECKER-ERROR ' + ''.join(traceback.format_exception_only(type(e), e)).strip() + where
         out.append(r)
     return out
 
